@@ -655,6 +655,7 @@ class ItemList:
                     arrays.append(fld.arrow())
                 else:
                     warnings.warn(f"unknown field {c_name}", DataWarning)
+                    arrays.append(pa.nulls(len(self), c_type))
 
         if type == "table":
             return pa.Table.from_arrays(arrays, names)
